@@ -1,6 +1,7 @@
 package main
 
 import (
+	"golang.org/x/tools/go/ssa"
 	"flag"
 	"strings"
 	"fmt"
@@ -56,6 +57,33 @@ func main() {
 			for _, m := range sortedKeys(ms.total[fn]) {
 				fmt.Println("   ", m)
 			}
+		}
+	case "whymod":
+		// lbvc whymod <function key> <component>: one chain of callees through which the component enters the mod-set
+		w, err := loadWorld("/repo")
+		if err != nil {
+			fmt.Fprintln(os.Stderr, err)
+			os.Exit(2)
+		}
+		sp := loadSpecs(w, "/verif")
+		ms := newModSets(w, sp)
+		fn := w.Funcs[os.Args[2]]
+		comp := os.Args[3]
+		seen := map[string]bool{}
+		for fn != nil {
+			fmt.Println(funcKey(fn), "direct:", ms.direct[fn][comp])
+			if ms.direct[fn][comp] || seen[funcKey(fn)] {
+				break
+			}
+			seen[funcKey(fn)] = true
+			var next *ssa.Function
+			for _, c := range ms.callees[fn] {
+				if ms.total[c][comp] && !seen[funcKey(c)] {
+					next = c
+					break
+				}
+			}
+			fn = next
 		}
 	case "callers":
 		w, err := loadWorld("/repo")
